@@ -55,6 +55,8 @@ Section Stmt.
   Definition run_phases (phs : list phase) (ss : list (list nat)) (o : list A) : list A :=
     fold_left (fun o p => run_phase (fst p) (snd p) o) (combine phs ss) o.
 End Stmt.
+Arguments stmt : clear implicits.
+Arguments phase : clear implicits.
 
 (* ------------------------------------------------------------------ _get_distance_method *)
 (* the argument: a string, a callable object, anything else *)
